@@ -11,7 +11,9 @@ RULE = ("one case = one lookup (start, end or None=now, now, optional metadata f
         "filter and (every second one) with a filter, so that recordings matching the filter sit in the edge day "
         "folders on both sides of the window ends; stream `wide`: one recording per day over six and a half months "
         "(2019-12-28 .. 2020-07-05: a year boundary, months of 29 / 30 / 31 days, +-1 us around the midnights that begin a "
-        "month), windows of 31-121 day folders whose start falls on every day of five months, explicit end and end = now; "
+        "month), windows of 31-121 day folders whose start falls on every day of five months, explicit end and end = now, and "
+        "the same a year later around a February of 28 days (`base_days`: the instants of a case are offsets from the "
+        "driver's BASE + that many days; the model is invariant under whole-day shifts); "
         "every third case is run a second time with logging enabled (root logger at DEBUG / INFO with a formatting handler): "
         "the process configuration is not an input of the lookup; non-trivial = window non-empty and not covering everything; "
         "distinct = distinct (times, tags, start, end, now, filter, random)")
@@ -26,11 +28,14 @@ TRUSTED = ["fake bucket behind the real S3BasicFacade; fake clock substituted fo
 NTAGS = 3
 
 
-def _case(times, tags, start, end, now, flt=None, rnd=False, keep=None):
+def _case(times, tags, start, end, now, flt=None, rnd=False, keep=None, base_days=0):
     if keep is not None:
         pairs = [(t, g) for t, g in zip(times, tags) if keep(t)]
         times, tags = [t for t, _ in pairs], [g for _, g in pairs]
-    return dict(times=times, tags=tags, start=start, end=end, now=now, filter=flt, random=rnd)
+    c = dict(times=times, tags=tags, start=start, end=end, now=now, filter=flt, random=rnd)
+    if base_days:
+        c["base_days"] = base_days     # all instants of the case are offsets from the driver's BASE + that many days
+    return c
 
 
 def generate(rng, tier):
@@ -85,12 +90,20 @@ WIDE_LO, WIDE_HI = -61, 129      # days relative to the driver's BASE (2020-02-2
 WIDE_WIDTHS = [30, 31, 32, 40, 59, 62, 93, 120]    # days between start and end: 31 .. 121 day folders
 
 
-def wide_times():
-    """one recording per day over six and a half months (a year boundary, months of 29 / 30 / 31 days), at an hour
-    that moves through the day, plus one microsecond around the midnights that begin a month"""
-    ts = [d * DAYUS + ((7 * d) % 24) * H + ((13 * d) % 60) * 60 * 10**6 for d in range(WIDE_LO, WIDE_HI + 1)]
-    for d in (-57, -26, 3, 34, 64, 95, 125):       # 1 Jan, 1 Feb, 1 Mar, 1 Apr, 1 May, 1 Jun, 1 Jul 2020
-        ts += [d * DAYUS - 1, d * DAYUS, d * DAYUS + 1]
+BASE_DATE = __import__("datetime").date(2020, 2, 27)     # the driver's BASE (offset 0)
+
+
+def date_of(case, us):
+    return BASE_DATE + __import__("datetime").timedelta(days=case.get("base_days", 0) + us // DAYUS)
+
+
+def wide_times(base_days=0, lo=WIDE_LO, hi=WIDE_HI):
+    """one recording per day over several months, at an hour that moves through the day, plus one microsecond around the
+    midnights that begin a month"""
+    ts = [d * DAYUS + ((7 * d) % 24) * H + ((13 * d) % 60) * 60 * 10**6 for d in range(lo, hi + 1)]
+    for d in range(lo + 1, hi):
+        if date_of(dict(base_days=base_days), d * DAYUS).day == 1:
+            ts += [d * DAYUS - 1, d * DAYUS, d * DAYUS + 1]
     return sorted(set(ts))
 
 
@@ -115,6 +128,19 @@ def wide_cases(rng, tier):
         if tier != "quick" or k % 8 == 3:                    # ... also at an earlier `now` (a shorter history)
             nw = s + 45 * DAYUS + 3 * H
             out.append(_case(times, tags, s, None, nw, keep=lambda t: t <= nw))
+    # the same a year later (offsets from 2021-02-27): a February of 28 days; starts from 20 Jan to 5 Mar 2021
+    lo, hi = -45, 110
+    times2 = wide_times(366, lo, hi)
+    tags2 = [rng.randrange(NTAGS) for _ in times2]
+    now2 = (hi + 1) * DAYUS + H
+    for k, d in enumerate(range(-38, 7)):
+        s = d * DAYUS + offs[(k + 1) % len(offs)]
+        widths = [31, 59] if tier == "quick" else WIDE_WIDTHS[1:]
+        for j, w in enumerate(widths):
+            out.append(_case(times2, tags2, s, s + w * DAYUS + [5 * H, 0, -1][(k + j) % 3], now2, base_days=366,
+                             flt=(k + j) % NTAGS if (k + j) % 4 == 0 else None))
+        if tier != "quick" or k % 3 == 0:
+            out.append(_case(times2, tags2, s, None, now2, base_days=366))
     return out
 
 
@@ -217,9 +243,10 @@ def features(case):
         nf = e // DAYUS - case["start"] // DAYUS + 1
         f.add("day-folders=" + ("1" if nf == 1 else "2-7" if nf <= 7 else "8-31" if nf <= 31 else "32-62" if nf <= 62 else "63+"))
         if nf > 31:
-            import datetime
-            f.add("wide-window-start-day-of-month=%d" % (datetime.date(2020, 2, 27) + datetime.timedelta(
-                days=case["start"] // DAYUS)).day)
+            f.add("wide-window-start-day-of-month=%d" % date_of(case, case["start"]).day)
+            if any(date_of(case, d * DAYUS).month == 2 and date_of(case, d * DAYUS).day == 28 and
+                   date_of(case, (d + 1) * DAYUS).month == 3 for d in range(case["start"] // DAYUS, e // DAYUS)):
+                f.add("wide-window-over-a-28-day-february")
     return f
 
 
